@@ -1,5 +1,6 @@
 #![allow(dead_code)]
 //! vharness — runtime monitors for vibrato. Driven by /verif/run.
+mod cliprops;
 mod dictprops;
 mod gen;
 mod miscprops;
@@ -107,8 +108,10 @@ fn run_case(ctx: &mut Ctx, rng: &mut Rng, stage: &str, xdir: &str) {
         "C09" => dictprops::c09_case(ctx, rng, stage),
         "C10" => miscprops::c10_case(ctx, rng),
         "C11" => dictprops::c11_case(ctx, rng),
+        "C13" if stage == "cli" => cliprops::c13_cli(ctx, rng, xdir),
         "C13" => dictprops::c13_case(ctx, rng),
         "C14" => trainprops::c14_case(ctx, rng),
+        "C15" if stage == "cli" => cliprops::c15_cli(ctx, rng, xdir),
         "C15" => trainprops::c15_case(ctx, rng),
         "C16" => trainprops::c16_case(ctx, rng),
         "C17" => trainprops::c17_case(ctx, rng),
